@@ -3,6 +3,7 @@
   Runs the executable definitions of the model (the same definitions the theorems are about).
 -/
 import Lessm.Model.Color
+import Lessm.Model.Builtins
 
 open Lessm
 
@@ -24,7 +25,18 @@ def handle (op : String) (payload : String) : String :=
       match parseOp o with
       | some o => optStr (Color.processLit a.toList o b.toList)
       | none => "bad-op"
-  | _, _ => "bad-op"
+  | "c17.call", [f, lex] =>
+      match Builtins.fnOfName f with
+      | some fn =>
+          match Builtins.callLexeme fn lex.toList with
+          | some (v, u) => Num.ratStr v ++ " " ++ String.ofList u
+          | none => "none"
+      | none => "bad-op"
+  | _, _ =>
+    -- payloads whose fields may contain spaces are separated by U+001F
+    match op, payload.splitOn "\x1f" with
+    | "c17.unknown", name :: rest => Builtins.callUnknown name rest
+    | _, _ => "bad-op"
 
 partial def loop (h : IO.FS.Stream) (out : IO.FS.Stream) : IO Unit := do
   let line ← h.getLine
